@@ -79,6 +79,8 @@ def gen_cases(rnd, kind, n_per_fn, P=0, F=0):
             add('pow', arr(s1, lo=-3, hi=3), k=rnd.randint(0, 3))
         if kind == 'int':
             add('lshift', arr(s1), k=rnd.randint(0, 4))
+            add('lsb', arr(s1))
+            add('tobits', arr(s1), k=rnd.choice([4, 16]))
     nd = [s for s in SHAPES if len(s) >= 1]
     for fn in REDUCE:
         for sh in rnd.sample(nd, min(len(nd), n_per_fn)):
@@ -198,6 +200,10 @@ async def evaluator(mpc, c, idx, arg):
             return a ** k
         if fn == 'lshift':
             return a << k
+        if fn == 'lsb':
+            return mpc.np_lsb(a) if secure else a % 2
+        if fn == 'tobits':
+            return mpc.np_to_bits(a, k) if secure else ((a[..., np.newaxis] % (1 << k)) >> np.arange(k)) % 2
         if fn == 'abs':
             return np.absolute(a)
         if fn == 'sgn':
